@@ -10,6 +10,21 @@ PID = "C14"
 
 def main(tier, replay=None):
     if replay:
+        import json
+        with open(replay) as fh:
+            rp = json.load(fh)
+        if rp.get("kind") == "storeshape-case":
+            from harness.checks import storeshape
+            wk = common.tmpdir("c14s-")
+            try:
+                fails = storeshape.run_case(rp["shape"], os.path.join(wk, "w"))
+            finally:
+                common.rmtree(wk)
+            if fails:
+                print(f"VIOLATION property={PID} replay={replay}\n  {fails[:2]}")
+                return 1
+            print("replay: holds")
+            return 0
         sysdrv.CHECK_STORE = True
         return S.replay_main(PID, replay)
     sysdrv.CHECK_STORE = True
@@ -28,6 +43,8 @@ def main(tier, replay=None):
                 chk.machinery(f"TLC refuted {res['violated']} on Store.tla N={n}")
         except tlc.TLCError as exc:
             chk.machinery(str(exc)[:1000])
+    from harness.checks import storeshape
+    storeshape.run(chk, PID, tier, sc.work)
     # accept/reject histories chosen by TLC, replayed with deletion switched on
     for dele, dall in ((True, False), (True, True)):
         consts = {"N": 3, "Workers": 2, "Steps": 7, "MaxPn": 20}
